@@ -478,21 +478,75 @@ def redefinition_block(rng, db, feats, n=None):
     return "\n".join(out) + "\n", sorted(elems)
 
 
+def _named_users(db):
+    """{lower named expression: set of elements of the species/phases whose log K uses it through -add_logk (chains followed)}"""
+    direct = {}
+    for o in list(db.species.values()) + list(db.phases.values()):
+        for nm, _ in o.add_logk:
+            direct.setdefault(nm.lower(), set()).update(e for e in o.elements if e not in ("H", "O", "e"))
+    users = {k: set(v) for k, v in direct.items()}
+    for _ in range(4):                       # expression k is also "used" by the users of every expression that adds k
+        for k, nd in db.named.items():
+            for nm, _c in nd.add_logk:
+                if k in users:
+                    users.setdefault(nm.lower(), set()).update(users[k])
+    return {k: v for k, v in users.items() if k in db.named and v}
+
+
 def gen_redefinition_history(rng, db):
-    """calls on ONE instance: [definitions (alone or together with a solution), solution at 25 C, solutions at other temperatures,
-    optionally a second redefinition and more solutions]. Returns (list of texts, meta)"""
+    """calls on ONE instance. Variants: (together) all redefining blocks in one call, alone or in front of a calculation;
+    (alone) each redefining block in a call of its own; (named-only) a calculation first, then a NAMED_EXPRESSIONS block ALONE that
+    changes an expression species/phases use through -add_logk, then calculations. Returns (list of texts, meta)"""
     feats = []
-    block, elems = redefinition_block(rng, db, feats)
     prim, _ = elements_of(db)
-    focus = [e for e in elems if e in prim] or None
+    users = _named_users(db)
+    variant = rng.choice(["together", "alone", "named-only", "named-only"]) if users else rng.choice(["together", "alone"])
     texts = []
+    focus = None
 
     def sol(temp=None):
         t, m = gen_solution(rng, db, 1, focus=focus)
         if temp is not None:
             t = re.sub(r"(?m)^ temp .*$", f" temp {fmt(temp)}", t, count=1)
         return t
-    if rng.random() < 0.7:
+    if variant == "named-only":
+        key = rng.choice(sorted(users))
+        focus = [e for e in users[key] if e in prim] or None
+        texts.append(sol(rng.choice([25.0, rng.uniform(0, 100)])) + TAIL)          # the model is built with the old expression
+        for _ in range(rng.randint(1, 2)):
+            lines = ["NAMED_EXPRESSIONS", db.named[key].name]
+            f = rng.random()
+            if f < 0.5:
+                lines.append(f"  log_k {fmt(rng.uniform(-2, 2))}")
+            elif f < 0.8:
+                lines += [f"  log_k {fmt(rng.uniform(-2, 2))}", f"  delta_h {fmt(rng.uniform(-30, 30))}"]
+            else:
+                lines.append(f"  -analytic {fmt(rng.uniform(-2, 2))} {fmt(rng.uniform(-1e-3, 1e-3))}")
+            texts.append("\n".join(lines) + "\nEND\n")                                # NAMED_EXPRESSIONS alone in its call
+            texts.append(sol(25.0) + TAIL)
+            texts.append(sol(rng.choice([5.0, 60.0, 90.0, rng.uniform(0, 100)])) + TAIL)
+        feats.append("redef:named-expression-alone")
+        return texts, {"kind": "redefinition-history", "features": feats}
+    block, elems = redefinition_block(rng, db, feats)
+    focus = [e for e in elems if e in prim] or None
+    if variant == "alone":
+        # each redefining block alone in a call of its own
+        parts, cur = [], []
+        for ln in block.splitlines():
+            if ln.split() and ln.split()[0].lower() in ("solution_species", "phases", "named_expressions") and cur:
+                parts.append(cur)
+                cur = []
+            cur.append(ln)
+        if cur:
+            parts.append(cur)
+        rng.shuffle(parts)
+        texts.append(sol() + TAIL)
+        for pt in parts:
+            texts.append("\n".join(pt) + "\nEND\n")
+            if rng.random() < 0.5:
+                texts.append(sol(rng.uniform(0, 100)) + TAIL)
+        feats.append("redef:each-block-alone")
+    elif rng.random() < 0.7:
         texts.append(block + "END\n")                       # definitions in a call of their own
     else:
         texts.append(block + sol() + TAIL)                   # definitions in front of the first calculation of the same call
